@@ -197,6 +197,8 @@ Definition zrange (a b : Z) : list Z := map (fun k => (a + Z.of_nat k)%Z) (seq 0
 Fixpoint enum_from {A} (k : Z) (l : list A) : list (Z * A) :=
   match l with [] => [] | a :: r => (k, a) :: enum_from (k + 1) r end.
 Definition enumerate_ {A} (l : list A) : list (Z * A) := enum_from 0 l.
+(* a list consumed by `while lst: x = lst.pop(0); ...` *)
+Definition drained {A} (l : list A) : list A := [].
 
 (* itertools.product(a, b) *)
 Definition product_ {A B} (a : list A) (b : list B) : list (A * B) := flat_map (fun x => map (fun y => (x, y)) b) a.
